@@ -85,9 +85,18 @@ func thoroughExtras(r *Report, repo, verif, prop string) {
 			continue
 		}
 		var meta struct {
-			DetectedBy *string `json:"detected_by"`
+			DetectedBy []string `json:"detected_by"` // "Cxx: rule/key" per check that fires
 		}
-		if json.Unmarshal(b, &meta) != nil || meta.DetectedBy == nil || !strings.Contains(*meta.DetectedBy, prop+"[") {
+		if json.Unmarshal(b, &meta) != nil {
+			continue
+		}
+		mine := false
+		for _, d := range meta.DetectedBy {
+			if strings.HasPrefix(d, prop+":") {
+				mine = true
+			}
+		}
+		if !mine {
 			continue
 		}
 		expected++
@@ -137,7 +146,60 @@ func thoroughExtras(r *Report, repo, verif, prop string) {
 	}
 	r.Analysed["mutant_replay"] = reps
 	r.Analysed["mutant_replay_detected"] = fmt.Sprintf("%d of %d recorded-detectable seeded changes for %s", detected, expected, prop)
-	r.Note("thorough: cross-target variants %v; mutant replay %d/%d detected", variants, detected, expected)
+
+	// 3. refactoring replay: behaviour-preserving rewrites under /verif/refactors
+	// (independently written, suite-confirmed) must leave the check silent.
+	refDir := filepath.Join(verif, "refactors")
+	rents, _ := os.ReadDir(refDir)
+	var rnames []string
+	for _, e := range rents {
+		if e.IsDir() {
+			rnames = append(rnames, e.Name())
+		}
+	}
+	sort.Strings(rnames)
+	silent, tried := 0, 0
+	var rreps []rep
+	for _, n := range rnames {
+		patch := filepath.Join(refDir, n, "patch.diff")
+		if _, err := os.Stat(patch); err != nil {
+			continue
+		}
+		wt := filepath.Join(tmp, "rf-"+n)
+		if err := exec.Command("git", "-C", repo, "worktree", "add", "-q", "--detach", wt, "HEAD").Run(); err != nil {
+			if err2 := exec.Command("cp", "-a", repo, wt).Run(); err2 != nil {
+				rreps = append(rreps, rep{n, "skipped: cannot make a scratch copy", false})
+				continue
+			}
+		}
+		cleanup := func() {
+			exec.Command("git", "-C", repo, "worktree", "remove", "--force", wt).Run()
+			os.RemoveAll(wt)
+		}
+		if diff, err := exec.Command("git", "-C", repo, "diff", "HEAD").Output(); err == nil && len(diff) > 0 {
+			ap := exec.Command("git", "-C", wt, "apply")
+			ap.Stdin = strings.NewReader(string(diff))
+			ap.Run()
+		}
+		if err := exec.Command("git", "-C", wt, "apply", patch).Run(); err != nil {
+			rreps = append(rreps, rep{n, "skipped: the refactoring no longer applies to the tree under test", false})
+			cleanup()
+			continue
+		}
+		tried++
+		code, out := run(nil, "-repo", wt, "-verif", verif, "-property", prop, "-tier", "quick", "-evidence", filepath.Join(tmp, n+".json"))
+		cleanup()
+		if code == 0 {
+			silent++
+			rreps = append(rreps, rep{n, "silent (exit 0)", true})
+		} else {
+			rreps = append(rreps, rep{n, fmt.Sprintf("NOT silent (exit %d)", code), true})
+			r.Fatal("thorough: the check is not silent on the behaviour-preserving refactoring %s (exit %d): %s", n, code, lastLines(out, 4))
+		}
+	}
+	r.Analysed["refactoring_replay"] = rreps
+	r.Analysed["refactoring_replay_silent"] = fmt.Sprintf("%d of %d applicable behaviour-preserving refactorings leave %s silent", silent, tried, prop)
+	r.Note("thorough: cross-target variants %v; mutant replay %d/%d detected; refactoring replay %d/%d silent", variants, detected, expected, silent, tried)
 }
 
 func lastLines(s string, n int) string {
